@@ -63,6 +63,14 @@ CHECKS = {
         "level_note": "Allocation is measured with runtime.MemStats around each call (single goroutine); retained memory by heap-after-GC at the midpoint and end of long streams. Native fuzzing cannot be pinned to VERIF_SEED.",
         "assumptions": ["a caller stops writing after Write returned an error", "1 MiB per call = 64 maximum records is the 'small multiple'"],
     },
+    "C10": {
+        "stages": [rapid_stage("C10", 3000, 60000, qshards=4)],
+        "design_ref": "DESIGN.md 4 C10",
+        "technique": "property-based schedule exploration (rapid) inside testing/synctest bubbles: virtual time, synctest.Wait forces the watcher goroutine to run in every case",
+        "level_text": "Randomised schedule search over {delivery plan, context kind, cancellation slot, GOMAXPROCS}; each case is deterministic in time and guarantees that the watcher has been scheduled before the transport log is inspected. A racy implementation survives N cancel-after-return cases with probability about 2^-N.",
+        "level_note": "Goroutine order at equal virtual instants is chosen by the Go scheduler: sampled, not enumerated.",
+        "assumptions": ["a context that ends exactly when the last hello byte arrives may make NewConn fail or succeed (tie)"],
+    },
     "C09": {
         "stages": [rapid_stage("C09", 800, 10000)],
         "design_ref": "DESIGN.md 4 C09",
